@@ -119,6 +119,53 @@ theorem energy_pointwise_mul_le (t x : ι → ℂ) (c : ℝ) (hc : 0 ≤ c) (h :
     energy (fun j => t j * x j) ≤ c * energy x :=
   energy_pointwise_le t x c hc h
 
+/-! #### spectral support (additions for C04/C05/C15/C39) -/
+
+lemma F_mult (m x : ι → ℂ) : P.F (P.mult m x) = fun k => m k * P.F x k := by
+  unfold mult; rw [P.inv_right]
+
+lemma F_injective {x y : ι → ℂ} (h : P.F x = P.F y) : x = y := by
+  rw [← P.inv_left x, ← P.inv_left y, h]
+
+/-- Two symbols that agree on the spectral support of `x` act identically on `x`. -/
+lemma mult_congr_support (m n x : ι → ℂ) (h : ∀ k, P.F x k ≠ 0 → m k = n k) :
+    P.mult m x = P.mult n x := by
+  unfold mult
+  congr 1; funext k
+  by_cases hk : P.F x k = 0
+  · simp [hk]
+  · rw [h k hk]
+
+/-- A symbol equal to `1` on the spectral support of `x` leaves `x` unchanged. -/
+lemma mult_eq_self_of_support (m x : ι → ℂ) (h : ∀ k, P.F x k ≠ 0 → m k = 1) : P.mult m x = x := by
+  rw [P.mult_congr_support m (fun _ => 1) x h, P.mult_one]
+
+/-- The spectral support never grows under a multiplier. -/
+lemma support_mult (m x : ι → ℂ) (k : ι) (h : P.F (P.mult m x) k ≠ 0) : P.F x k ≠ 0 := by
+  rw [P.F_mult] at h
+  intro h0; apply h; simp [h0]
+
+/-- A symbol of unit modulus on the spectral support of `x` preserves the intensity of `x` exactly. -/
+theorem energy_mult_eq_of_support [Nonempty ι] (m x : ι → ℂ)
+    (h : ∀ k, P.F x k ≠ 0 → Complex.normSq (m k) = 1) : energy (P.mult m x) = energy x := by
+  classical
+  rw [P.mult_congr_support m (fun k => if P.F x k = 0 then 1 else m k) x
+    (fun k hk => by simp [hk])]
+  apply P.energy_mult_eq
+  intro k
+  by_cases hk : P.F x k = 0
+  · simp [hk]
+  · simp [hk, h k hk]
+
+lemma energy_smul (c : ℂ) (x : ι → ℂ) : energy (c • x) = Complex.normSq c * energy x := by
+  unfold energy
+  rw [Finset.mul_sum]
+  apply Finset.sum_congr rfl; intro j _
+  simp [Complex.normSq_mul]
+
+/-- Parseval read backwards: the reciprocal-space intensity of `Finv y` is that of `y`. -/
+lemma energy_F_Finv (y : ι → ℂ) : energy (P.F (P.Finv y)) = energy y := by rw [P.inv_right]
+
 end FourierPair
 
 /-! ### The concrete 1-D instance: Mathlib's `ZMod.dft` -/
